@@ -1,9 +1,31 @@
-(* C19 -- placeholder until Proofs/WriterProofs.v is in place: the theorem below is the
-   initial-state instance only and is labelled as such. *)
-From Coq Require Import ZArith List.
-From DRF Require Import Model.WriterCore Model.PyWriter.
+(* C19 -- Writer bookkeeping matches the recording. *)
+From Coq Require Import ZArith List Bool.
+From DRF Require Import Model.WriterCore Model.PyWriter Proofs.WriterBasics Proofs.WriterInv.
+Import ListNotations.
 Local Open Scope Z_scope.
 
-Theorem C19_initial_counters_partial : p_written py_init + p_gap py_init = p_next py_init.
-Proof. exact (eq_refl 0). Qed.
-Print Assumptions C19_initial_counters_partial.
+(* total written + total gap = next available sample, after ANY history of rf_write /
+   rf_write_blocks / close calls -- accepted, rejected or failed, all modes, all block layouts *)
+Theorem C19_counters_sum : forall c ops, counters_ok (fold_left (py_step c) ops py_init).
+Proof. exact counters_sum_all_histories. Qed.
+Print Assumptions C19_counters_sum.
+
+(* a rejected call leaves every counter unchanged *)
+Theorem C19_rejected_write_keeps_counters : forall gr c ps ns vec cls ret ps',
+  py_rf_write gr c ps ns vec = ((cls, ret), ps') -> cls = ValueError \/ cls = IOError -> ps' = ps.
+Proof. exact py_rf_write_reject_noop. Qed.
+Print Assumptions C19_rejected_write_keeps_counters.
+
+(* the C cursor equals the Spec cursor (one past the last accepted sample) and every stored index is
+   below it -- single-block histories, chunked mode *)
+Theorem C19_cursor_single_chunked_partial : forall c ops, vcfg c -> c_chunk c = true ->
+  Forall (fun op => 0 <= fst op) ops ->
+  let st := fold_left (model_step c) ops init_state in
+  w_gi st = s_cur (fold_left (spec_step c) ops spec_init) /\
+  forall k v, lookup_st st k = Some v -> k < c_start c + w_gi st.
+Proof.
+  intros c ops Hc Hch Hops st. split.
+  - exact (proj1 (proj2 (writer_refines_single_chunked c ops Hc Hch Hops))).
+  - exact (cursor_one_past_highest c ops Hc Hch Hops).
+Qed.
+Print Assumptions C19_cursor_single_chunked_partial.
